@@ -477,7 +477,10 @@ def slice_C02(ctx):
     # long inputs: a start position that needs well over a thousand single give-backs of a greedy
     # repeat before it succeeds (or before the scan may move on) - no bound on backtracking depth
     for p, inp in [("[ab][^b]*c", "ac" + "z" * 1500 + "bc"), (".*x", "x" + "a" * 1200), ("a[^c]*cd", "a" + "b" * 1100 + "cd" + "b" * 1100 + "c"),
-                   ("[ab]+b", "a" * 1300 + "b" + "a" * 1300), ("(?:a|b)[ab]*ba", "ba" + "b" * 1250), ("a.*?bc", "a" + "b" * 1150 + "c")]:
+                   ("[ab]+b", "a" * 1300 + "b" + "a" * 1300), ("(?:a|b)[ab]*ba", "ba" + "b" * 1250), ("a.*?bc", "a" + "b" * 1150 + "c"),
+                   # a starred group inside a loop, visited at offsets more than 64 apart
+                   ("(?:x(?:ab|c)*y)+", "xy" * 33), ("^(?:x(?:ab|c)*y)+$", "xy" * 35), ("(?:x(?:ab|c)*y)+z", "xy" * 34 + "z"),
+                   ("(?:a(?:bc|d)*)+e", "a" * 70 + "e"), ("(?:x(?:ab|c)*?y)+", "xcy" * 24)]:
         tuples.append(("xpath", "", p, inp, "", "long"))
     cases = mk_cases(tuples, "art")
     for c in cases:
@@ -729,6 +732,12 @@ def slice_C04(ctx):
         tuples.append((d, fl, pat, inp, "", "staleend"))
     for d, fl, pat, inp, _ in lines_stream(ctx):
         tuples.append((d, fl, pat, inp, "", "lines"))
+    # a single separator character as the pattern, on inputs with leading, doubled and trailing separators:
+    # the empty tokens between them are tokens, and the three APIs see the same matches
+    for sep, pat_ in ((" ", " "), (",", ","), ("-", "-"), (";", ";"), ("|", "\\|"), (" ", "\\s"), ("a", "a"), (" ", "[ ]"), (".", "\\.")):
+        for shape in ("{s}a{s}{s}b", "a{s}{s}b{s}", "{s}", "{s}{s}", "a{s}b", "{s}{s}a", "a", "", "{s}a{s}", "ab{s}{s}{s}cd"):
+            for d_ in ("xpath", "xsd"):
+                tuples.append((d_, "", pat_, shape.replace("{s}", sep), "", "separators"))
     cases = []
     cid = 0
     for t in tuples:
@@ -1170,6 +1179,16 @@ def grammar_stream(ctx, dialects):
             p_ = "(" + inner + ")" + ref
         for d in dialects:
             tuples.append((d, "", p_, "", "", "backref-digits"))
+    # block names are matched as written (only under flag x is white space removed first): spaces,
+    # underscores, hyphens and case variants of a real block name are not names
+    for nm in ["BasicLatin", "Basic_Latin", "Basic Latin", "_BasicLatin", "BasicLatin_", "Basic-Latin", "basiclatin", "BASICLATIN", "Cyrillic",
+               "_Cyrillic", "Cyr illic", "Latin-1Supplement", "Latin-1 Supplement", "Latin_1Supplement", "Latin1Supplement", "GreekandCoptic",
+               "Greek and Coptic", "Greek_and_Coptic", "Greek", "PrivateUse", "Private Use", "Private_Use", "CJKUnifiedIdeographs", "CJK_Unified_Ideographs"]:
+        for neg in ("p", "P"):
+            for d in dialects:
+                for fl in ("", "x"):
+                    tuples.append((d, fl, "\\" + neg + "{Is" + nm + "}", "", "", "block-names"))
+                    tuples.append((d, fl, "[\\" + neg + "{Is" + nm + "}a]", "", "", "block-names"))
     return tuples
 
 
@@ -1300,7 +1319,8 @@ def slice_C08(ctx):
 def boundary_points():
     """range boundaries +-1 of every dumped General_Category set, plus fixed interesting points"""
     pts = set([0, 9, 10, 13, 32, 0x2d, 0x2e, 0x30, 0x39, 0x3a, 0x41, 0x5a, 0x5f, 0x61, 0x7a, 0xb7, 0xd7ff, 0xe000, 0xfffd,
-               0xffff, 0x10000, 0xeffff, 0xf0000, 0x10fffd, 0x10ffff, 0x17f, 0x212a, 0x3c2, 0x3c3, 0x130, 0x131])
+               0xffff, 0x10000, 0xeffff, 0xf0000, 0x10fffd, 0x10ffff, 0x17f, 0x212a, 0x3c2, 0x3c3, 0x130, 0x131,
+               0x7e, 0x7f, 0x80, 0x81, 0xfe, 0xff, 0x100, 0x7ff, 0x800, 0xfffe, 0x10001, 0x1ffff, 0x20000, 0x10041, 0x10030])
     dump = os.path.join(tie.WORK, "dump", "gc.txt")
     for line in open(dump):
         for r in line.split()[1:]:
@@ -1875,6 +1895,27 @@ def slice_C14(ctx):
             cases += [a, b]
             pairs.append((str(cid), str(cid + 1)))
             cid += 2
+    # the same under the XSD dialect (own generator state; only syntax both dialects have)
+    rng_x = random.Random(ctx.seed * 15487469 + 14)
+    for _ in range(ctx.n(500, 5000)):
+        al = rng_x.choice(["ab", "abc", "ab1", "a[b", "a]b"])
+        g = gen.Gen(rng_x, alphabet=al, feats={"cls", "grp", "alt", "quant", "esc", "dot"})
+        ast, pat = g.pattern(rng_x.randint(1, 7))
+        toks = tokenise_pattern(pat)
+        ws_pat = ""
+        for t in toks:
+            if rng_x.random() < 0.4:
+                ws_pat += "".join(rng_x.choice(WS) for _ in range(rng_x.randint(1, 2)))
+            ws_pat += t
+        if rng_x.random() < 0.3:
+            ws_pat += rng_x.choice(WS)
+        fl = rng_x.choice(["", "i", "s"])
+        for inp in gen.inputs_for(rng_x, al + " ", 3):
+            a = Case(cid, "xsd", fl, pat, inp, "<$0>", "mrta", tag="orig-xsd")
+            b = Case(cid + 1, "xsd", fl + "x", ws_pat, inp, "<$0>", "mrta", tag="ws-xsd")
+            cases += [a, b]
+            pairs.append((str(cid), str(cid + 1)))
+            cid += 2
     # whitespace inside classes is kept; other characters are never removed
     keep = []
     for p, inp, exp in [("[ ]", " ", "1"), ("[ ]", "a", "0"), ("[a b]", " ", "1"), ("a[ ]b", "a b", "1"), ("a[ ]b", "ab", "0"),
@@ -1917,8 +1958,11 @@ C15_PATTERNS = [
     ("ab", 0), ("a+", 0), ("(a)b", 1), ("(a)|b", 1), ("(a)(b)?", 2), ("((a)|(b))c", 3),
     ("(a)(b)(c)(d)(e)(f)(g)(h)(i)", 9), ("(a)(b)(c)(d)(e)(f)(g)(h)(i)(j)", 10),
     ("(a)(b)(c)(d)(e)(f)(g)(h)(i)(j)(k)(l)", 12), ("(a)(b)(c)(d)(e)(f)(g)(h)(i)(j)(k)?(l)?", 12),
+    # more than nine groups of which none beyond the ninth takes part in some matches: whether $10 is group 10
+    # or group 1 followed by 0 depends on the pattern, not on the match at hand
+    ("(a)(b)(c)(d)(e)(f)(g)(h)(i)(j)?(k)?", 11),
 ]
-C15_INPUTS = ["", "xyz", "ab", "xabcdefghijklx", "abcdefghijklabcdefghij", "bcacab", "aab ac"]
+C15_INPUTS = ["", "xyz", "ab", "xabcdefghijklx", "abcdefghijklabcdefghij", "bcacab", "aab ac", "abcdefghi", "abcdefghij-abcdefghi"]
 
 
 def slice_C15(ctx):
@@ -1940,7 +1984,7 @@ def slice_C15(ctx):
     cid = 0
     for pat, k in C15_PATTERNS:
         for inp in C15_INPUTS:
-            rs = repls if (not ctx.quick or k in (1, 12)) else rng.sample(repls, 160)
+            rs = repls if (not ctx.quick or k in (1, 11, 12)) else rng.sample(repls, 160)
             for r in rs:
                 c = Case(cid, "xpath", "", pat, inp, r, "ra", tag=f"groups={k}")
                 cases.append(c)
@@ -2207,7 +2251,10 @@ def slice_C18(ctx):
              # the same pattern text and flags under both dialects, compiled one after the other, where
              # the two readings differ in whether the empty string matches
              ("xpath", "", "$", "a$b"), ("xsd", "", "$", "a$b"), ("xsd", "", "^a*", "a^b"), ("xpath", "", "^a*", "a^b"),
-             ("xpath", "m", "(^|b)", "ab^\n"), ("xsd", "m", "(^|b)", "ab^\n")]
+             ("xpath", "m", "(^|b)", "ab^\n"), ("xsd", "m", "(^|b)", "ab^\n"),
+             # a class that is not the first term, on inputs that mix a BMP character with supplementary-plane
+             # characters whose low 16 bits are the same
+             ("xpath", "", "x[A-Z]", "xA\U00010041\U00020041Z"), ("xpath", "", "-[0-9]+", "-17\U00010037\U00010031a")]
     ops, expect_cases = [], []
     handles = 0
     live = []
@@ -2358,10 +2405,13 @@ def slice_C19(ctx):
             "(a)\\10", "(a)\\11", "(a)(b)\\12", "(a)\\1{2}", "(?:(a)\\1)+", "(a)(?:\\1|b)", "(a*)b\\1", "(a?)\\1c", "^(a)\\1$", "(a)x\\1", "(A)\\1", "(a)\\1\\1",
             # the group is entered more than once before the path that succeeds is found
             "^(a|ab)+?\\1$", "(a|ab)+?b\\1", "^((a|ab)b?)+?\\2$", "^(a|ab)*?\\1$", "^(?:(a|ab)b?)+?\\1$", "^(a+?b?)+?\\1$",
-            "^(a|ab){1,2}?\\1$", "^(ab|a)+?\\1b?$"]
+            "^(a|ab){1,2}?\\1$", "^(ab|a)+?\\1b?$",
+            # a reluctant repeat over a one-character body whose later round can bypass the group
+            "^(?:b|(a)){1,2}?\\1c$", "(?:b|(a)){1,3}?\\1c", "^(?:(a)|b){2}?\\1$", "(?:b|(a))+?\\1c", "^(?:(a)|b){1,3}?b\\1$", "(?:(a)|[bc]){2,3}?\\1"]
     for p in hand:
         for fl in ("", "i"):
-            for inp in gen.all_strings("ab", 4) + ["aA", "Aa", "abcdefghijj", "abcdefghija0", "a0", "aa0", "a1", "ab12", "aab", "aAa"]:
+            for inp in gen.all_strings("ab", 4) + ["aA", "Aa", "abcdefghijj", "abcdefghija0", "a0", "aa0", "a1", "ab12", "aab", "aAa",
+                                                    "abc", "abac", "bac", "abcc", "bbac", "ac", "aac", "bc", "abbc", "baac"]:
                 tuples.append(("xpath", fl, p, inp, "<$1>"))
     # a group that captures differently from different start positions, a greedy variable-length star, then
     # the back-reference: the attempt from a later start position must not inherit what the star was
@@ -2672,6 +2722,26 @@ def slice_C20(ctx):
                 pairs.append((str(cid), str(cid + 1), "r{n} expansion, starred group inside", False))
                 cid += 2
         laws["r{n} starred inside"] += 1
+    # seventh stream (own generator state): r{n,m} over a body whose alternatives themselves hold a quantifier
+    # (so that equal positions recur inside the loop), against the expanded spelling
+    rng_d = random.Random(ctx.seed * 67867967 + 59)
+    for _ in range(ctx.n(300, 3000)):
+        a_, c_ = rng_d.sample("abc", 2)
+        body = rng_d.choice(["%s?%s|%s|%s+" % (a_, c_, a_, c_), "%s|%s+" % (a_, c_), "%s?|%s+%s" % (a_, c_, a_), "%s%s?|%s+" % (a_, c_, c_),
+                             "%s+|%s%s" % (c_, a_, c_)])
+        n0 = rng_d.choice([1, 2, 2])
+        m0 = n0 + rng_d.choice([0, 1, 1, 2])
+        tail = rng_d.choice([c_, a_, c_ + "$", ""])
+        counted = "(?:%s){%d,%d}%s" % (body, n0, m0, tail)
+        expanded = ("(?:%s)" % body) * n0 + ("(?:%s)?" % body) * (m0 - n0) + tail
+        for _i in range(8):
+            inp = rng_d.choice(["", "x"]) + "".join(rng_d.choice([a_, c_, c_, a_ + c_]) for _ in range(rng_d.randint(1, 5))) + rng_d.choice(["", "x"])
+            a = Case(cid, "xpath", "", counted, inp, "<$0>", "mra", tag="r{n,m} expansion, quantified alternatives")
+            b = Case(cid + 1, "xpath", "", expanded, inp, "<$0>", "mra", tag="r{n,m} expansion, quantified alternatives")
+            cases += [a, b]
+            pairs.append((str(cid), str(cid + 1), "r{n,m} expansion, quantified alternatives", False))
+            cid += 2
+        laws["r{n,m} quantified alternatives"] += 1
     code, model, dis = run_slice(cases)
     spec = spec_match([c for c in cases])
     byid = {c.cid: c for c in cases}
